@@ -9,7 +9,7 @@ use tree_sitter::{Node, Parser, Point, Tree, TreeCursor};
 
 pub fn params(tier: &str) -> (usize, usize) {
     // (lexeme-string length k, max document length for full (s,e) range enumeration)
-    if tier == "quick" { (3, 16) } else { (4, 24) }
+    if tier == "mini" { (1, 12) } else if tier == "quick" { (3, 16) } else { (4, 24) }
 }
 
 pub fn meta(tier: &str) -> CheckMeta {
